@@ -53,6 +53,7 @@ class Gen:
         self.flavour = flavour
         self.counter = 0
         self.used = set()
+        self.bare = set()
 
     def num(self, integer=False):
         # distinct numbers (multiples of 1/4 or integers), never reused within a model
@@ -62,8 +63,17 @@ class Gen:
                 self.used.add(k)
                 return k if integer else (k / 4.0 if self.r.random() < 0.5 else float(k))
 
+    # identifiers of a wider family: every flattened name that starts with d, e, r or ( is sensitive to
+    # character-set stripping of "der(" (str.lstrip), names like der3 / dder4 / red5 / e / r / d1 included
+    ALT_STEMS = ["d", "e", "r", "dd", "ee", "rr", "der", "dder", "red", "depth", "reservoir", "re", "ed", "rde"]
+
     def fresh(self, stem):
         self.counter += 1
+        if self.r.random() < 0.45:
+            stem = self.r.choice(self.ALT_STEMS)
+            if stem in ("d", "e", "r") and stem not in self.bare and self.r.random() < 0.5:
+                self.bare.add(stem)
+                return stem
         return "%s%d" % (stem, self.counter)
 
     def dims(self, maxrank=2):
@@ -751,6 +761,12 @@ def judge(case, res):
                 if w is None:
                     continue
                 meta_want[g][-1][1][a] = w
+                src = uv["attrs"][a]["k"]
+                if e is not None and e.get("dims") and (src == "list" or (src == "dm" and uv["ptype"] in ("float", "int"))) \
+                        and o["k"] != "s":
+                    return ("attributes", "%s.%s is a %s %s after expansion, the element of a %s attribute of a %s array "
+                            "must be a plain Python number (value %s)" % (nm, a, o["k"], o.get("shape", ""), src,
+                                                                          uv["ptype"], w))
                 if o["k"] not in ("s", "mx", "dm") or (o["k"] != "s" and o["shape"] != [1, 1]):
                     return ("attributes", "%s.%s is not a scalar after expansion: %s" % (nm, a, o))
                 ov = o["v"] if o["k"] == "s" else (o["rows"][0][0] if o["rows"] else None)
